@@ -23,7 +23,7 @@ determinism)
     bin="$HERE/build/agesim.$k"; extra=()
     case "$id" in
       C16) bin="$HERE/build/plugsim.$k";;
-      C20) bin="$HERE/build/agesim-race.$k"; export GORACE="log_path=$tmp/race halt_on_error=0 exitcode=0" AGESIM_RACE_LOG="$tmp/race";;
+      C20) bin="$HERE/build/agesim-race.$k"; export GORACE="log_path=$tmp/race halt_on_error=0 exitcode=0" AGESIM_RACE_LOG="$tmp/race" AGESIM_AST_BIN="$HERE/build/agesim-ast.$k";;
       C15) export AGE_BIN="$HERE/build/age.$k" KEYGEN_BIN="$HERE/build/age-keygen.$k";;
     esac
     n=$N; [ "$id" = C15 ] && n=$((N/4)); [ "$id" = C20 ] && n=$((N/2))
@@ -35,6 +35,7 @@ determinism)
     done
     wait
     for seed in 1 7 12345; do
+      if grep -q 'verdict=harness' "$tmp/$id.$seed.a"; then echo "DETERMINISM $id seed=$seed: harness errors in the runs"; fail=1; fi
       lines=$(wc -l < "$tmp/$id.$seed.a")
       if [ "$lines" -ne "$n" ]; then echo "DETERMINISM $id seed=$seed: expected $n lines, got $lines"; fail=1; fi
       if [ "$id" = C20 ]; then
